@@ -1,0 +1,30 @@
+//go:build verif
+
+// Verification hooks for the write-ahead log (property C09 of /verif).
+// Add-only: thin exports of unexported entry points, no logic.
+
+package wal
+
+import (
+	"time"
+
+	time2 "github.com/oxia-db/oxia/common/time"
+)
+
+// VerifNewWal opens a WAL exactly like walFactory.NewWal does (same newWal call), but with a
+// caller-supplied clock for the trimmer and a check interval long enough that the
+// background ticker never fires: the harness triggers trimming through VerifDoTrim.
+func VerifNewWal(namespace string, shard int64, options *FactoryOptions, provider CommitOffsetProvider,
+	clock time2.Clock) (Wal, error) {
+	return newWal(namespace, shard, options, provider, clock, 1000*time.Hour)
+}
+
+// VerifDoTrim runs one trimmer round synchronously (the body of the ticker branch of trimmer.run).
+func VerifDoTrim(w Wal) error {
+	return w.(*wal).trimmer.(*trimmer).doTrim()
+}
+
+// VerifHeaderSize is the per-record overhead of the codec new segments are written with.
+func VerifHeaderSize(w Wal) uint32 {
+	return w.(*wal).currentSegment.(*readWriteSegment).c.codec.GetHeaderSize()
+}
